@@ -22,6 +22,7 @@ go test -count=1 ./... >/tmp/mutcheck.suite.log 2>&1 && echo "   existing suite 
 cp $d/demo_test.go $demo
 go test -count=1 ./$pkg/ >/tmp/mutcheck.demo.log 2>&1 && { echo "   DEMO PASSES WITH THE CHANGE (not a valid mutant)"; exit 3; } || echo "   demo fails with the change (confirmed)"
 cd /verif
+rm -rf /tmp/mutcheck.evidence.$$; cp -r /verif/evidence /tmp/mutcheck.evidence.$$   # evidence of the clean tree is restored afterwards
 git -C /repo apply $d/patch.diff || { echo "patch does not apply to /repo"; exit 3; }
 for p in "$@"; do
   echo "== check $p on the mutated tree"
@@ -30,3 +31,4 @@ for p in "$@"; do
   echo "   exit=$rc"
 done
 git -C /repo checkout -q -- .
+rm -rf /verif/evidence; mv /tmp/mutcheck.evidence.$$ /verif/evidence; rm -rf /verif/replays
